@@ -347,7 +347,8 @@ def wildneg_stream(ck):
                 ck.violation({"property": "C01", "stream": "wildneg",
                               "kind": "Go produced a value outside the modelled fragment: %s" % e,
                               "program": progs[i], "src": go_cases[i]["src"], "go": g})
-    verdicts = ck.run_coq("C01", "judge", terms, shard=max(10, len(terms) // 16 + 1), tag="wildneg")
+    # few shards: every coqc process first loads Run.C01 (a few CPU-seconds)
+    verdicts = ck.run_coq("C01", "judge", terms, shard=max(16, len(terms) // 16 + 1), tag="wildneg")
     vc, errs = {}, {}
     for (i, g), v in zip(where, verdicts):
         vc[v] = vc.get(v, 0) + 1
@@ -781,6 +782,9 @@ def run(ck):
         "semi-naive loop",
         "fragment: names, strings, int64 numbers, pairs, lists; fn:plus/minus/mult/div/pair/cons/list/len; "
         "= != < <= > >=; let-transforms; no floats, maps, structs, temporal facts, external/deferred/merge predicates, do-transforms (C02)",
+        "wildcards inside negated atoms: each `_` is encoded as a fresh variable (Syntax.v has no wildcard term); the wildcard-negation "
+        "stream is judged by the first model only (judge) - Run.C01.run_model_uf applies RuleCheck.rewrite, which knows the wildcard "
+        "as variable -1 and would delay the encoded atom to the end of the body",
         "programs are safe by construction: != , comparisons and negated atoms after their binders (findings N19, F3 belong to C04), "
         "typed columns so that no two facts of a predicate have equal Atom.Hash() (finding F8)",
         "independence of the result from the choice of a valid stratification is tested (Go stratifies itself), not proved"])
@@ -852,7 +856,13 @@ META = {
             "transfers), every solution resolves the variables of positive atoms and everything aliased to them through any "
             "chain, its one-pass lookup equals the chain-following find, a strict run derives exactly the head instances of "
             "the valuations satisfying every premise (order-independent), and eliminating an alias variable (equality "
-            "anywhere in the body, either orientation) does not change the facts a clause derives.",
+            "anywhere in the body, either orientation) does not change the facts a clause derives. Wildcards inside negated "
+            "atoms (`!r(X, _)`, `!r(_, _)`, `!r(X, _, X)`; the generator of the main stream never writes them) have a stream of "
+            "their own: generated programs get `_` into existing negated atoms and new negated atoms with wildcards over "
+            "lower-layer / extensional predicates at any body position behind their binders, and are compared with the first "
+            "model as the main stream; theorems neg_wildcard_reading / neg_wildcard_step (Datalog/WildNeg.v) state the reading "
+            "the least-model theorems use: such an atom holds iff no valuation of its unbound variables (each `_` a variable "
+            "of its own) makes it a fact of the completed lower strata.",
     "note": "Trusted: Coq kernel + vm_compute; the hand-written models are tied to the Go code only by differential evaluation "
             "(sampled; exhaustive on the 2-rule schema). The least-model theorems are about the alias-free model; for aliasing "
             "clauses the machine-checked part is per clause (alias_elimination_sound, under the hypotheses that both strict "
